@@ -3,7 +3,7 @@ import json
 import os
 import re
 
-from ..mir import Callee, last_seg, loc, op_const, op_int, op_place
+from ..mir import tymatch, Callee, last_seg, loc, op_const, op_int, op_place
 from ..facts import VERIF
 
 EXPLANATION = (
@@ -220,7 +220,7 @@ def run(ctx):
         ctx.ob("S2", its[0]["path"], "value", loc(its[0]["sp"]), its[0].get("int") == val, f"{path} = {its[0].get('int')}, specification {val}", ordinal=False)
     # VMess security nibble mapping From<u8>
     for b in bodies:
-        if (b.impl_self_def or "").endswith("header::SecurityType") and b.method == "from" and "u8" in b.local_ty(1):
+        if tymatch((b.impl_self_def or ""), "header::SecurityType") and b.method == "from" and "u8" in b.local_ty(1):
             tab = {}
             for blk in b.rpo():
                 t = b.term(blk)
